@@ -99,7 +99,7 @@ pub trait Property: Send + Sync + 'static {
     }
     /// optional extra campaign after the generated search (e.g. statistical pooling,
     /// watched worker runs); may add keys to the evidence and return failures
-    fn epilogue(&self, _tier: Tier, _seed: u64, _extra: &mut BTreeMap<String, Value>) -> Result<(), (Fail, Value)> {
+    fn epilogue(&self, _tier: Tier, _seed: u64, _counters: &BTreeMap<String, u64>, _extra: &mut BTreeMap<String, Value>) -> Result<(), (Fail, Value)> {
         Ok(())
     }
     fn shards(&self) -> usize {
@@ -569,9 +569,10 @@ pub fn run_property<P: Property>(p: &P, cfg: &RunCfg) -> i32 {
         }
     }
 
-    // 4. epilogue
-    if violations.is_empty() {
-        match catch(|| p.epilogue(cfg.tier, cfg.seed, &mut extra)) {
+    // 4. epilogue (not in child mode)
+    let is_child = std::env::var("VPCHECK_CHILD").is_ok();
+    if violations.is_empty() && !is_child {
+        match catch(|| p.epilogue(cfg.tier, cfg.seed, &total.counters, &mut extra)) {
             Ok(Ok(())) => {}
             Ok(Err((fail, case))) => {
                 if let Some(k) = matching_known(&findings, id, &fail) {
@@ -640,7 +641,8 @@ pub fn run_property<P: Property>(p: &P, cfg: &RunCfg) -> i32 {
     });
     let edir = verif_dir().join("evidence");
     let _ = std::fs::create_dir_all(&edir);
-    std::fs::write(edir.join(format!("{id}.json")), serde_json::to_string_pretty(&evidence).unwrap()).expect("cannot write evidence");
+    let suffix = std::env::var("VPCHECK_EVIDENCE_SUFFIX").unwrap_or_default();
+    std::fs::write(edir.join(format!("{id}{suffix}.json")), serde_json::to_string_pretty(&evidence).unwrap()).expect("cannot write evidence");
 
     println!(
         "{id} {}: evaluations={} distinct_nontrivial={} violations={} wall={:.1}s",
@@ -709,4 +711,55 @@ pub fn pick(u: u16, len: usize) -> usize {
 
 pub fn boxed<S: Strategy + 'static>(s: S) -> BoxedStrategy<S::Value> {
     s.boxed()
+}
+
+/// Run the same property in the overflow-checked build of the harness (profile "checked":
+/// overflow checks and debug assertions on, what a debug build of a user's program does).
+/// The child writes evidence/<id>.checked.json; its verdict is folded into the parent's.
+pub fn run_checked_profile(id: &str, tier: Tier, seed: u64, extra: &mut BTreeMap<String, Value>) -> Result<(), (Fail, Value)> {
+    let bin = match std::env::var("VPCHECK_CHECKED_BIN") {
+        Ok(b) if Path::new(&b).exists() => b,
+        _ => {
+            extra.insert("checked_profile".into(), json!("not run: VPCHECK_CHECKED_BIN not set (use ./check)"));
+            return Ok(());
+        }
+    };
+    let outp = std::process::Command::new(&bin)
+        .arg(id)
+        .arg("--tier")
+        .arg(tier.name())
+        .env("VERIF_SEED", seed.to_string())
+        .env("VPCHECK_CHILD", "1")
+        .env("VPCHECK_EVIDENCE_SUFFIX", ".checked")
+        .output()
+        .map_err(|e| (Fail::new("abort", format!("cannot run {bin}: {e}")), Value::Null))?;
+    let stdout = String::from_utf8_lossy(&outp.stdout).to_string();
+    let code = outp.status.code().unwrap_or(2);
+    let child_ev: Value = std::fs::read_to_string(verif_dir().join("evidence").join(format!("{id}.checked.json")))
+        .ok()
+        .and_then(|s| serde_json::from_str(&s).ok())
+        .unwrap_or(Value::Null);
+    extra.insert(
+        "checked_profile".into(),
+        json!({
+            "binary": bin,
+            "exit": code,
+            "evaluations": child_ev["coverage"]["evaluations"],
+            "distinct_nontrivial": child_ev["coverage"]["distinct_nontrivial"],
+            "classes": child_ev["coverage"]["classes"],
+        }),
+    );
+    match code {
+        0 => Ok(()),
+        1 => {
+            // relay the child's violation
+            let replay = stdout.lines().find_map(|l| l.strip_prefix("VIOLATION ").and_then(|r| r.split("replay=").nth(1)).map(|s| s.trim().to_string()));
+            let (sub, msg, case) = match replay.and_then(|p| std::fs::read_to_string(p).ok()).and_then(|s| serde_json::from_str::<Value>(&s).ok()) {
+                Some(v) => (v["sub"].as_str().unwrap_or("?").to_string(), v["msg"].as_str().unwrap_or("?").to_string(), v["case"].clone()),
+                None => ("?".into(), stdout.clone(), Value::Null),
+            };
+            Err((Fail::new(sub, format!("[overflow-checked build] {msg}")), case))
+        }
+        _ => Err((Fail::new("abort", format!("overflow-checked build of the harness did not reach a verdict (exit {code}): {}", stdout.lines().last().unwrap_or(""))), Value::Null)),
+    }
 }
